@@ -1326,6 +1326,7 @@ func (p *pipe) DoStream(ctx context.Context, pool *pool, cmd Completed) RedisRes
 	cmds.CompletedCS(cmd).Verify()
 
 	if err := ctx.Err(); err != nil {
+		pool.Store(p) // the wire was acquired for this call: hand it back
 		return NewErrorResultStream(err)
 	}
 	state := atomic.LoadInt32(&p.state)
@@ -1375,6 +1376,7 @@ func (p *pipe) DoMultiStream(ctx context.Context, pool *pool, multi ...Completed
 	}
 
 	if err := ctx.Err(); err != nil {
+		pool.Store(p) // the wire was acquired for this call: hand it back
 		return NewErrorResultStream(err)
 	}
 	state := atomic.LoadInt32(&p.state)
